@@ -6,7 +6,8 @@ from autobean_refactor.models.internal.repeated import Repeated
 CASES = {'quick': 1500, 'thorough': 40000}
 GATES = {
     'quick': {'evaluations': 30000, 'getter_checks': 25000, 'setter_checks': 3000, 'setter_nonempty_readback': 1500,
-              'model_next_to_zero_width': 2000, 'classes_checked': 25, 'setter_crlf': 150},
+              'model_next_to_zero_width': 2000, 'classes_checked': 25, 'setter_crlf': 150,
+              'runs_split_by_zero_width_token': 100},
     'thorough': {'evaluations': 800000, 'classes_checked': 30},
 }
 SPACINGS = ['', ' ', '\n', '\r\n', '  \t', '\n\n', ' \n\t \n', '\t', '    ', '\r\n\r\n', ' \r\n ', '\n ']
@@ -35,16 +36,25 @@ def targets(root):
     return [(p, m) for p, m in walker.walk(root) if m is not root and hasattr(type(m), 'spacing_before') and not isinstance(m, Repeated)]
 
 
-def runs(lab, pos, m):
+def runs(lab, pos, m, store=None):
+    """Offsets (i, a, b, j): text[i:a] is the spacing run before the model, text[b:j] the run after it. A run is the maximal
+    sequence of Whitespace/Newline characters adjacent to the model; zero-width marks directly at the model's boundary are
+    transparent, but a zero-width structural token (end-of-line mark, list placeholder, dedent mark) *inside* a stretch of blanks
+    ends the run: the blanks beyond it lie inside the neighbouring model (e.g. trailing blanks before a line end), and only with
+    this reading do two neighbours see the same run from their two sides."""
     a = pos[id(m.first_token)]
     b = pos[id(m.last_token)] + len(m.last_token.raw_text)
-    i = a
-    while i > 0 and lab[i - 1] == 'S':
-        i -= 1
-    j = b
-    while j < len(lab) and lab[j] == 'S':
-        j += 1
-    return i, a, b, j
+    store = store if store is not None else m.token_store
+
+    def extent(tok, succ):
+        n = 0
+        while tok is not None and not tok.raw_text:
+            tok = succ(tok)
+        while tok is not None and isinstance(tok, walker.SPACING):
+            n += len(tok.raw_text)
+            tok = succ(tok)
+        return n
+    return a - extent(store.get_prev(m.first_token), store.get_prev), a, b, b + extent(store.get_next(m.last_token), store.get_next)
 
 
 def run_case(col, r, idx):
@@ -64,6 +74,8 @@ def run_case(col, r, idx):
             i, a, b, j = runs(lab, pos, m)
             eb, ea = full[i:a], full[b:j]
             cname = type(m).__name__
+            if (i > 0 and lab[i - 1] == 'S') or (j < len(lab) and lab[j] == 'S'):
+                col.count('runs_split_by_zero_width_token')      # blanks continue beyond a zero-width structural token
             col.count('cls:' + cname)
             prev, nxt = store.get_prev(m.first_token), store.get_next(m.last_token)
             if (prev is not None and not prev.raw_text) or (nxt is not None and not nxt.raw_text):
